@@ -23,6 +23,8 @@ REGISTRY = {
     "C09": ("harness.checks.dat", "run"),
     "C13": ("harness.checks.matrix", "run"),
     "C05": ("harness.checks.warm", "run"),
+    "C19": ("harness.checks.degen", "run"),
+    "C20": ("harness.checks.boundsck", "run"),
 }
 
 
